@@ -228,3 +228,35 @@ func init() {
 	addControl(control{Prop: "C03", Name: "range-test-as-nested-ifs", Rule: "R03a", Kind: "refactor", Quick: true,
 		File: "types.go", Old: "	if !(math.MinInt64 <= c.f && c.f < math.MaxInt64) {\n		return 0, ErrOverflow\n	}\n	return int64(c.f), nil", New: "	if math.MinInt64 <= c.f {\n		if c.f < math.MaxInt64 {\n			return int64(c.f), nil\n		}\n	}\n	return 0, ErrOverflow"})
 }
+
+func init() {
+	// ---------------- C07 ----------------
+	addControl(control{Prop: "C07", Name: "array-emptiness-test-removed", Rule: "R07a", Kind: "mutant", Quick: true,
+		File: "parse/parse.go", Old: "		if p.input == \"\" {\n			return nil, errors.New(\"array closing ']' missing\")\n		}\n		if p.input[0] == ']' {", New: "		if p.input[0] == ']' {", Expect: "R07a/(*parse.flagParser).parseArray"})
+	addControl(control{Prop: "C07", Name: "setat-growth-off-by-one", Rule: "R07a", Kind: "mutant", Quick: true,
+		File: "ucfg.go", Old: "	if idx >= l {\n		tmp := make([]value, idx+1)", New: "	if idx > l {\n		tmp := make([]value, idx+1)", Expect: "R07a/(*ucfg.fields).setAt"})
+	addControl(control{Prop: "C07", Name: "index-lower-bound-dropped", Rule: "R07a", Kind: "mutant",
+		File: "path.go", Old: "if i.i < 0 || i.i >= len(arr) {", New: "if i.i >= len(arr) {", Expect: "R07a/(ucfg.idxField).GetValue"})
+	addControl(control{Prop: "C07", Name: "index-upper-bound-off-by-one", Rule: "R07a", Kind: "mutant",
+		File: "path.go", Old: "if i.i < 0 || i.i >= len(arr) {", New: "if i.i < 0 || i.i > len(arr) {", Expect: "R07a/(ucfg.idxField).GetValue"})
+	addControl(control{Prop: "C07", Name: "negative-set-index-unchecked", Rule: "R07a", Kind: "mutant",
+		File: "path.go", Old: "	if i.i < 0 {\n		return raiseIndexOutOfBounds(opts, elem, i.i)\n	}\n", New: "", Expect: "R07a/(*ucfg.fields).setAt"})
+	addControl(control{Prop: "C07", Name: "lexer-end-of-input-test-removed", Rule: "R07a", Kind: "mutant",
+		File: "variables.go", Old: "				if len(content) <= off { // found '$' at end of string\n					return\n				}\n", New: "", Expect: "R07a/ucfg.lexer$1"})
+	addControl(control{Prop: "C07", Name: "dquote-scan-starts-at-zero", Rule: "R07a", Kind: "mutant",
+		File: "parse/parse.go", Old: "	in := p.input\n	off := 1\n	var i int", New: "	in := p.input\n	off := 0\n	var i int", Expect: "R07a/(*parse.flagParser).parseStringDQuote"})
+	addControl(control{Prop: "C07", Name: "delat-bound-weakened", Rule: "R07a", Kind: "mutant",
+		File: "ucfg.go", Old: "	if i < 0 || len(a) <= i {\n		return false\n	}", New: "	if i < 0 || len(a) < i {\n		return false\n	}", Expect: "R07a/(*ucfg.fields).delAt"})
+	addControl(control{Prop: "C07", Name: "drain-after-first-return", Rule: "R07e", Kind: "mutant", Quick: true,
+		File: "variables.go", Old: "	// drain lexer on return so go-routine won't leak\n	defer drainLex()\n\n	pieces, perr := parseVarExp(lex, pathSep, maxIdx, enableNumKeys, allowEscapePath)\n	if perr != nil {\n		return nil, perr\n	}\n", New: "	pieces, perr := parseVarExp(lex, pathSep, maxIdx, enableNumKeys, allowEscapePath)\n	if perr != nil {\n		return nil, perr\n	}\n\n	// drain lexer on return so go-routine won't leak\n	defer drainLex()\n", Expect: "R07e/ucfg.parseSplice"})
+	addControl(control{Prop: "C07", Name: "isnil-for-all-kinds-again", Rule: "R07f", Kind: "mutant",
+		File: "merge.go", Old: "		switch v.Kind() {\n		case reflect.Chan, reflect.Func, reflect.Interface, reflect.Ptr, reflect.UnsafePointer:\n			if v.IsNil() {\n				return &cfgNil{cfgPrimitive{ctx, opts.meta}}, nil\n			}\n		}", New: "		if v.IsNil() {\n			return &cfgNil{cfgPrimitive{ctx, opts.meta}}, nil\n		}", Expect: "R07f/ucfg.normalizeValue"})
+	addControl(control{Prop: "C07", Name: "new-panic-on-api-path", Rule: "R07d", Kind: "mutant",
+		File: "path.go", Old: "	if in == \"\" {\n		return cfgPath{", New: "	if in == \"\" && idx < -1 {\n		panic(\"invalid index\")\n	}\n	if in == \"\" {\n		return cfgPath{", Expect: "R07d/ucfg.parsePathIdx"})
+	addControl(control{Prop: "C07", Name: "unchecked-type-assertion", Rule: "R07d", Kind: "mutant",
+		File: "reify.go", Old: "	if ref, ok := v.(*cfgDynamic); ok {\n		unrefed, err := ref.getValue(opts)", New: "	if _, isSub := v.(cfgSub); !isSub {\n		ref := v.(*cfgDynamic)\n		unrefed, err := ref.getValue(opts)", Expect: "R07d/ucfg.castArr"})
+	addControl(control{Prop: "C07", Name: "emptiness-test-as-length-test", Rule: "R07a", Kind: "refactor", Quick: true,
+		File: "parse/parse.go", Old: "		if p.input == \"\" {\n			return nil, errors.New(\"array closing ']' missing\")\n		}\n		if p.input[0] == ']' {", New: "		if len(p.input) < 1 {\n			return nil, errors.New(\"array closing ']' missing\")\n		}\n		if c := p.input[0]; c == ']' {"})
+	addControl(control{Prop: "C07", Name: "getvalue-bounds-in-positive-form", Rule: "R07a", Kind: "refactor",
+		File: "path.go", Old: "	if i.i < 0 || i.i >= len(arr) {\n		return nil, raiseMissing(cfg, i.String())\n	}\n	return arr[i.i], nil", New: "	if 0 <= i.i && i.i < len(arr) {\n		return arr[i.i], nil\n	}\n	return nil, raiseMissing(cfg, i.String())"})
+}
